@@ -177,6 +177,23 @@ LocalNumberingCorrect(f, validate) ==
 GlobalNumberingCorrect(gl, validate) ==
   LET r == AssignGlobalIDs(gl, validate) IN r.ok => GlobalIdsCorrect(r.gl)
 
+\* Editing a numbered function: an unnamed value inserted as the FIRST instruction of the entry block.  Its position in
+\* the flat walk is right after the parameters and the entry label.
+InsertFirst(f) == [f EXCEPT !.blocks[1].insts = <<Inst("", "value")>> \o @]
+InsertPos(f)   == Len(f.params) + 2
+\* the shift law: nothing before the inserted value moves, the inserted value takes the count of numbered items before
+\* it, every number after it grows by one (uses outside the function -- blockaddress constants -- follow the blocks)
+InsertShifts(f) ==
+  LET old == LLVMLocalNumbering(f)  new == LLVMLocalNumbering(InsertFirst(f))  p == InsertPos(f) IN
+  /\ Len(new) = Len(old) + 1
+  /\ \A q \in 1..(p - 1) : new[q] = old[q]
+  /\ new[p] = Cardinality({q \in 1..(p - 1) : old[q] # NoNum})
+  /\ \A q \in (p + 1)..Len(new) : new[q] = IF old[q - 1] = NoNum THEN NoNum ELSE old[q - 1] + 1
+\* parse (numbers validated and cached) -> insert -> print (numbered again): every unnamed value carries its LLVM number
+ParseInsertPrintCorrect(f, validate) ==
+  LET r == AssignLocalIDs(f, TRUE) IN
+  r.ok => LET e == AssignLocalIDs(InsertFirst(r.f), validate) IN e.ok /\ LocalIdsCorrect(e.f)
+
 \* numbering an already numbered function / module again changes nothing
 LocalAssignIdempotent(f, validate) ==
   LET r == AssignLocalIDs(f, validate) IN r.ok => AssignLocalIDs(r.f, validate) = r
